@@ -347,7 +347,7 @@ def generator_rules(ctx, pid, gen_rel, fun_rel, codec):
             good = None
             why_not = None
             for gd in guards:
-                if gd.lineno >= c.lineno:
+                if (gd.lineno, gd.col_offset) >= (c.lineno, c.col_offset):      # source position, not line: the template list may be written on one line
                     continue
                 # the guard must interpolate checker.maximum
                 call = getattr(gd, '_parent', None)
@@ -371,7 +371,7 @@ def generator_rules(ctx, pid, gen_rel, fun_rel, codec):
                     why_not = 'the guard is emitted only under %s; for SIZE (%d..%d) (a field of %d bits) it is left out although the field can hold %d' % (
                         ' and '.join(('' if pol else 'not ') + t for t, pol in extra), cell[0], cell[1], cell[2], 2 ** cell[2] - 1 + (cell[0] if offset_min else 0))
             for hc, h, gconst, emitting in hguards:
-                if hc.lineno >= c.lineno or good is not None:
+                if (hc.lineno, hc.col_offset) >= (c.lineno, c.col_offset) or good is not None:
                     continue
                 hp = flow.param_names(h)
                 if hp and hp[0] in ('self', 'cls'):
